@@ -10,7 +10,7 @@ from .splinelat import RealSpline, describe, jsonable_par
 # clause -> property
 CLAUSES = {
     # C09
-    "not_monotone": "C09", "leaves_box": "C09", "endpoint_not_pinned": "C09", "tail_not_identity": "C09",
+    "box_point_not_mapped": "C09", "not_monotone": "C09", "leaves_box": "C09", "endpoint_not_pinned": "C09", "tail_not_identity": "C09",
     "discontinuous_at_knot": "C09", "discontinuous_at_tail_bound": "C09", "nonpositive_derivative": "C09",
     # C17
     "in_domain_rejected": "C17", "in_domain_crash": "C17", "in_domain_nonfinite": "C17", "out_of_domain_accepted": "C17",
@@ -64,6 +64,8 @@ def eval_case(case, want, dtypes=("float64", "float32"), variant=0):
         if oc != "Value":
             if dtn == "float64" or "C17" in want:
                 add("in_domain_rejected" if oc == "InputOutsideDomain" else "in_domain_crash", "forward on in-domain lattice inputs %s: %s" % ([str(x) for x, _ in ins][:6], oc), **tag)
+                # a bijection of the box maps every point of the box, its end points included
+                add("box_point_not_mapped", "forward maps no value to the box points %s (end points included): %s" % ([str(x) for x, _ in ins][:6], oc), **tag)
             if dtn == "float32":
                 add("f32_raises", "float32 forward raises on in-domain inputs: %s" % oc, **tag)
             continue
@@ -185,6 +187,7 @@ def eval_case(case, want, dtypes=("float64", "float32"), variant=0):
             if oci != "Value":
                 if dtn == "float64" or "C17" in want:
                     add("in_domain_rejected" if oci == "InputOutsideDomain" else "in_domain_crash", "inverse on in-range values %s: %s" % ([str(o["y"]) for _, o in ins][:6], oci), **tag)
+                    add("box_point_not_mapped", "the inverse maps no value to the box points %s (end points included): %s" % ([str(o["y"]) for _, o in ins][:6], oci), **tag)
                 if dtn == "float32":
                     add("f32_raises", "float32 inverse raises on in-range inputs: %s" % oci, **tag)
             else:
